@@ -206,6 +206,46 @@ func execC16R(t *testing.T, c C16RCase) *Verdict {
 			}
 		}
 	}
+	// A file whose every import failed on a *name* collision must have left
+	// nothing behind: none of the names only it defines may be visible.
+	// (Extension-number collisions are the recorded finding of C17 and are not
+	// judged here.)
+	for f := range failed {
+		if accepted[f] {
+			continue
+		}
+		nameOnly := true
+		for _, cl := range calls {
+			if cl.op.Kind == "import" && cl.op.File == f && cl.err != nil {
+				msg := cl.err.Error()
+				if !strings.Contains(msg, "already defined") || strings.Contains(msg, "extension with tag") {
+					nameOnly = false
+				}
+			}
+		}
+		if !nameOnly {
+			continue
+		}
+		others := map[string]bool{}
+		for g := range attempted {
+			if g == f {
+				continue
+			}
+			for _, x := range symPool[g].symbols {
+				others[x] = true
+			}
+			for _, d := range symPool[g].deps {
+				for _, x := range symPool[d].symbols {
+					others[x] = true
+				}
+			}
+		}
+		for _, x := range symPool[f].symbols {
+			if !others[x] && syms.Lookup(protoreflect.FullName(x)) != nil {
+				return v("C16/failed-import-visible/name-collision", "every Import(%s) failed with a name collision, yet Lookup(%q) finds the symbol at the end", f, x)
+			}
+		}
+	}
 	// direct extension registrations: at most one success per (extendee, tag),
 	// and none if an accepted file already owns the number
 	okExt := map[string]int{}
